@@ -366,8 +366,8 @@ def holds(s, c):
                 if it:
                     c.loop.pop(it, None)
         return True
-    if k == "soft":
-        return True
+    if k in ("soft", "mk"):
+        return True         # ("mk": an unrelated object is constructed at this point of an inline block; no constraint)
     if k == "dist":
         return dist_allows(s, c)
     if k == "order":
